@@ -36,11 +36,23 @@ func TestMain(m *testing.M) {
 // Base (absent = document.New()) describes a package written by another producer that the history starts from
 // (opened with OpenFromMemory). Saves==1: the saved main part is judged after every call, not only at the drawn
 // save calls and at the end.
+//
+// On (parallel to Ops, absent = 0) names the document the call goes to: a history may edit up to three documents of
+// one process alternately. Document 0 is the start document; documents 1 and 2 are created (document.New(), or with
+// PeerOpen and a Base: opened from the same package as document 0) when the first call addresses them. Each has
+// its own reference model; after every call every OTHER live document must be exactly as it was.
+// Rep (parallel to Ops, absent = 1) repeats the call: each repetition is judged as a call of its own (bodies
+// that grow past 16/32/64 elements, runs of removals).
+// rmhandle kinds beyond live|removed|foreign|nil: peer (a paragraph that is in the body of another live document of
+// the history), copy (a copy of a paragraph of this body: equal content, different object).
 type Case struct {
-	Ops   []ops.Op `json:"ops"`
-	Mode  []int    `json:"mode,omitempty"`
-	Base  *Base    `json:"base,omitempty"`
-	Saves int      `json:"saves,omitempty"`
+	Ops      []ops.Op `json:"ops"`
+	Mode     []int    `json:"mode,omitempty"`
+	On       []int    `json:"on,omitempty"`
+	Rep      []int    `json:"rep,omitempty"`
+	Base     *Base    `json:"base,omitempty"`
+	PeerOpen bool     `json:"peeropen,omitempty"`
+	Saves    int      `json:"saves,omitempty"`
 }
 
 // textKinds are the append constructors whose first string argument is the text of the new element.
@@ -91,11 +103,16 @@ var cfg = &ops.Config{Classes: gen.Expressible, Weights: ops.DefaultWeights}
 type step struct {
 	Op   ops.Op
 	Mode int
+	On   int
+	Rep  int
 }
+
+// sizes around the thresholds where a list implementation changes behaviour (9/10/11 items, powers of two)
+var repCounts = []int{2, 3, 8, 9, 10, 11, 15, 16, 17, 31, 32, 33, 34, 40, 63, 64, 65, 70}
 
 // genStep draws one call. Steps are drawn as elements of a rapid slice so that the shrinker can delete
 // any of them (not only the trailing ones).
-func genStep(t *rapid.T) step {
+func genStep1(t *rapid.T) step {
 	var k string
 	switch rapid.IntRange(0, 9).Draw(t, "grp") {
 	case 0, 1, 2, 3, 4:
@@ -113,32 +130,49 @@ func genStep(t *rapid.T) step {
 	}
 	switch k {
 	case "rmhandle":
-		return step{ops.Op{K: k, S: []string{rapid.SampledFrom([]string{"live", "live", "live", "removed", "foreign", "nil"}).Draw(t, "hk")}, I: []int{rapid.IntRange(0, 60).Draw(t, "sel")}}, mode}
+		return step{Op: ops.Op{K: k, S: []string{rapid.SampledFrom([]string{"live", "live", "live", "live", "removed", "foreign", "nil", "peer", "copy"}).Draw(t, "hk")}, I: []int{rapid.IntRange(0, 400).Draw(t, "sel")}}, Mode: mode}
+	case "rmparaat", "rmelemat":
+		// the selector reaches -1, every index, n and n+1 of bodies of up to ~400 elements (ops.Sel)
+		return step{Op: ops.Op{K: k, I: []int{rapid.IntRange(0, 400).Draw(t, "sel")}}, Mode: mode}
 	case "addelem":
-		return step{ops.Op{K: k, I: []int{rapid.SampledFrom([]int{0, 1, 2, 2}).Draw(t, "ek")}}, mode}
+		return step{Op: ops.Op{K: k, I: []int{rapid.SampledFrom([]int{0, 1, 2, 2}).Draw(t, "ek")}}, Mode: mode}
 	case "listitemnil":
 		o := cfg.OpOf(t, "para")
 		o.K = k
-		return step{o, mode}
+		return step{Op: o, Mode: mode}
 	case "pagesettings":
 		d := func(l string) float64 { return rapid.SampledFrom(dims).Draw(t, l) }
 		m := func(l string) float64 { return rapid.SampledFrom([]float64{25.4, 25.4, 0, 10, -1}).Draw(t, l) }
-		return step{ops.Op{K: k,
+		return step{Op: ops.Op{K: k,
 			S: []string{rapid.SampledFrom(sizeNames).Draw(t, "size"), rapid.SampledFrom(orientNames).Draw(t, "orient"), rapid.SampledFrom([]string{"", "lines", "default"}).Draw(t, "grid")},
 			F: []float64{d("cw"), d("ch"), m("mt"), m("mr"), m("mb"), m("ml"), m("hd"), m("fd"), m("gut")},
 			I: []int{rapid.IntRange(0, 600).Draw(t, "lp"), rapid.IntRange(0, 50).Draw(t, "cs")},
-			B: []bool{rapid.IntRange(0, 9).Draw(t, "nilps") == 0}}, mode}
+			B: []bool{rapid.IntRange(0, 9).Draw(t, "nilps") == 0}}, Mode: mode}
 	case "custompage":
 		if rapid.Bool().Draw(t, "limits") {
-			return step{ops.Op{K: k, F: []float64{rapid.SampledFrom(dims).Draw(t, "cw"), rapid.SampledFrom(dims).Draw(t, "ch")}}, mode}
+			return step{Op: ops.Op{K: k, F: []float64{rapid.SampledFrom(dims).Draw(t, "cw"), rapid.SampledFrom(dims).Draw(t, "ch")}}, Mode: mode}
 		}
 	case "orientraw":
-		return step{ops.Op{K: k, S: []string{rapid.SampledFrom(orientNames).Draw(t, "orient")}}, mode}
+		return step{Op: ops.Op{K: k, S: []string{rapid.SampledFrom(orientNames).Draw(t, "orient")}}, Mode: mode}
 	case "docgridraw":
-		return step{ops.Op{K: k, S: []string{rapid.SampledFrom([]string{"", "", "lines", "default", "linesAndChars"}).Draw(t, "grid")},
-			I: []int{rapid.IntRange(-1, 600).Draw(t, "lp"), rapid.IntRange(-1, 50).Draw(t, "cs")}}, mode}
+		return step{Op: ops.Op{K: k, S: []string{rapid.SampledFrom([]string{"", "", "lines", "default", "linesAndChars"}).Draw(t, "grid")},
+			I: []int{rapid.IntRange(-1, 600).Draw(t, "lp"), rapid.IntRange(-1, 50).Draw(t, "cs")}}, Mode: mode}
 	}
-	return step{cfg.OpOf(t, k), mode}
+	return step{Op: cfg.OpOf(t, k), Mode: mode}
+}
+
+// genStepFor draws one call of a history over ndocs documents; with bulk, an append or removal may be repeated.
+func genStepFor(ndocs int, bulk bool) func(t *rapid.T) step {
+	return func(t *rapid.T) step {
+		s := genStep1(t)
+		if ndocs > 1 {
+			s.On = rapid.IntRange(0, ndocs-1).Draw(t, "on")
+		}
+		if g := kindGroup[s.Op.K]; bulk && (g == "append" || g == "remove") && rapid.IntRange(0, 5).Draw(t, "rep?") == 0 {
+			s.Rep = rapid.SampledFrom(repCounts).Draw(t, "rep")
+		}
+		return s
+	}
 }
 
 func genCase(t *rapid.T) Case {
@@ -148,15 +182,39 @@ func genCase(t *rapid.T) Case {
 	if rapid.IntRange(0, 2).Draw(t, "opened") == 2 {
 		c.Base = genBase(t)
 	}
-	if rapid.IntRange(0, 7).Draw(t, "saves") == 7 {
+	if rapid.IntRange(0, 13).Draw(t, "saves") == 13 {
 		c.Saves = 1
 	}
+	// one history in three edits two or three documents of the process alternately
+	ndocs := rapid.SampledFrom([]int{1, 1, 1, 1, 2, 2, 3}).Draw(t, "ndocs")
+	if ndocs > 1 && c.Base != nil {
+		c.PeerOpen = rapid.Bool().Draw(t, "peeropen")
+	}
+	// one history in twelve has repeated calls (bodies of more than 16/32/64 elements)
+	bulk := rapid.IntRange(0, 11).Draw(t, "bulk") == 0
 	max := kit.Scale(40, 80)
 	min := rapid.IntRange(1, max*3/4).Draw(t, "atleast")
-	steps := rapid.SliceOfN(rapid.Custom(genStep), min, max).Draw(t, "steps")
+	if bulk {
+		max /= 2 // (the repetitions make the history long)
+		if min > max {
+			min = max
+		}
+	}
+	steps := rapid.SliceOfN(rapid.Custom(genStepFor(ndocs, bulk)), min, max).Draw(t, "steps")
+	on, rep := false, false
 	for _, s := range steps {
 		c.Ops = append(c.Ops, s.Op)
 		c.Mode = append(c.Mode, s.Mode)
+		c.On = append(c.On, s.On)
+		c.Rep = append(c.Rep, s.Rep)
+		on = on || s.On != 0
+		rep = rep || s.Rep > 1
+	}
+	if !on {
+		c.On = nil
+	}
+	if !rep {
+		c.Rep = nil
 	}
 	return c
 }
@@ -292,7 +350,17 @@ func checkSave1(res *kit.Result, doc *document.Document, model []interface{}, wh
 		res.Count("save-refused", 1)
 		return
 	}
+	// saving is not an edit: the list is the model before and after (a later call would see the difference
+	// anyway; said here it is attributed to the save and not to the next call)
+	if !same(doc.Body.Elements, model) {
+		res.Fail("C08.L1", "%s: saving changed the body's element list (model %d elements, body now %d)", where, len(model), len(doc.Body.Elements))
+		return
+	}
 	res.Eval("C08.L4")
+	res.Count("saved-parts-judged", 1)
+	if strings.HasPrefix(where, "final") {
+		res.Count("saved-parts-judged:final", 1)
+	}
 	pkg, err := opc.Read(b)
 	if err != nil {
 		res.Fail("C08.L4", "%s: unreadable package: %v", where, err)
@@ -345,13 +413,18 @@ func checkSave1(res *kit.Result, doc *document.Document, model []interface{}, wh
 func TestC08(t *testing.T) {
 	kit.Main(t, kit.Spec[Case]{
 		ID: "C08", Level: "exploration",
-		Rule: "history of 1-40 (thorough 1-80) body-editing calls on a new document or (1 in 3) on a document OPENED from a package written by the harness with string templates (1-7 body children: paragraphs, paragraphs that end a section (w:sectPr inside w:pPr), tables, body-level bookmarks, content controls; body-level w:sectPr in four forms or absent): every append constructor (text-taking ones with the drawn text plus a per-call marker, the drawn text as it is, or the empty string; AddListItem also with a nil config; Body.AddElement with a paragraph, a table or a section element), removals by handle (live, already removed, foreign, nil) / paragraph index / element index with selectors covering -1, every valid index, n, n+1, and page-setting/header/footer calls that create section settings at arbitrary points, among them calls with arguments the API rejects (SetPageSettings with nil / custom sizes at and beyond the limits / unknown orientation, SetCustomPageSize and the distance setters with values at and beyond the limits, SetPageOrientation with unknown values, SetDocGrid without a type, AddTable without rows/columns, cell edits outside the table, AutoGenerateTOC/UpdateTOC without headings/TOC); reference model = slice of element identities compared pointer-for-pointer after every call, a content fingerprint of every element already there compared across every append, removal, page/header call and every REJECTED call (error returned => list and contents as before), plus the child order of w:body at drawn saves, at the end, right after opening, after every call while the list holds more than one section element, and (1 case in 8) after every call. non-trivial = >=1 successful removal after >=4 appends of >=3 kinds with section settings present before the last append; distinct = distinct sequence of (op kind, outcome group) and start document",
+		Rule: "history of 1-40 (thorough 1-80) body-editing calls on a new document or (1 in 3) on a document OPENED from a package written by the harness with string templates (1-7 body children: paragraphs, paragraphs that end a section (w:sectPr inside w:pPr), tables, body-level bookmarks, content controls; body-level w:sectPr in four forms or absent): every append constructor (text-taking ones with the drawn text plus a per-call marker, the drawn text as it is, or the empty string; AddListItem also with a nil config; Body.AddElement with a paragraph, a table or a section element), removals by handle (live, already removed, foreign, nil) / paragraph index / element index with selectors covering -1, every valid index, n, n+1, and page-setting/header/footer calls that create section settings at arbitrary points, among them calls with arguments the API rejects (SetPageSettings with nil / custom sizes at and beyond the limits / unknown orientation, SetCustomPageSize and the distance setters with values at and beyond the limits, SetPageOrientation with unknown values, SetDocGrid without a type, AddTable without rows/columns, cell edits outside the table, AutoGenerateTOC/UpdateTOC without headings/TOC); reference model = slice of element identities compared pointer-for-pointer after every call, a content fingerprint of every element already there compared across every append, removal, page/header call and every REJECTED call (error returned => list and contents as before), plus the child order of w:body at drawn saves, at the end, right after opening, after every call while the list holds more than one section element, and (1 case in 8) after every call. one history in three edits two or three documents of the process ALTERNATELY (each call names its document; documents 1 and 2 are created - document.New(), or opened from the same package as document 0 - when the first call addresses them, i.e. while the others already have content), each with its own model; after every call every other live document (also the never-edited one that supplies foreign handles) must hold the same elements with the same contents; handle removals also get a paragraph of another live document of the history and a COPY of a live paragraph (equal content, other object); one history in twelve repeats appends/removals 2-70 times (bodies past 16/32/64 elements; index selectors reach every index, n and n+1 of such bodies) and one opened start in twelve has 8-67 children; saving must leave the list as it is. non-trivial = in one document >=1 successful removal after >=4 appends of >=3 kinds with section settings present before the last append; distinct = distinct sequence of (op kind, outcome group) and start document",
 		Gen:  genCase, Run: run, Findings: findings, Fixed: fixedCases,
 		MustSee: map[string]float64{"rm-out-of-range": 0.3, "rmhandle:removed": 0.1, "rmhandle:foreign": 0.1, "sectPr-in-the-middle": 0.2, "multi-element-append": 0.2, "failed-removal": 0.3,
 			"empty-text-append": 0.3, "empty-text-append-after-paragraph": 0.2, "empty-text-note": 0.05, "raw-text-append": 0.3,
 			"rejected-call": 0.3, "rejected-page-call": 0.15, "rejected-page-call-before-any-sectPr": 0.05, "opened-base": 0.2, "opened-with-inner-sectPr": 0.08,
-			"several-sectPr-in-model": 0.1, "saved-with-sectPr-last-and-another-earlier": 0.08, "saved-after-every-call": 0.05, "addelem-sectPr": 0.1},
-		Assumptions: []string{"AutoGenerateTOC (prepends by design) and UpdateTOC are not append operations and are judged under C15; here they are only held to the clause for rejected calls (error => body unchanged), after a successful one the model is re-read from the document",
+			"several-sectPr-in-model": 0.1, "saved-with-sectPr-last-and-another-earlier": 0.08, "saved-after-every-call": 0.03, "addelem-sectPr": 0.1,
+			"several-documents": 0.2, "documents-edited-alternately": 0.15, "document-created-while-another-has-content": 0.1, "peer-opened-from-the-same-package": 0.02,
+			"rmhandle:peer": 0.05, "rmhandle:copy-of-one-of-several": 0.04, "repeated-call": 0.04, "body-over-16-elements": 0.1, "body-over-32-elements": 0.03, "body-over-64-elements": 0.015,
+			"opened-with-over-16-elements": 0.008},
+		Assumptions: []string{"documents of one process are independent bodies: a call on one document is neither an append to nor a removal from another live document and does not disturb the elements already there (the statement's clauses read per body; no element object is ever handed to two documents by the generator)",
+			"a copy of a paragraph object (same content, different pointer) is a paragraph that does not exist in the body (RemoveParagraph is documented to remove 'the given paragraph object'): removing it must fail",
+			"AutoGenerateTOC (prepends by design) and UpdateTOC are not append operations and are judged under C15; here they are only held to the clause for rejected calls (error => body unchanged), after a successful one the model is re-read from the document",
 			"3 of 5 text-taking appends carry a per-op marker so that the saved children can be matched to model elements, the others pass the drawn text unchanged or the empty string; text is drawn from XML-expressible classes",
 			"GenerateTOC is not among the constructors the statement lists: the content-fingerprint clause does not apply to it (the list clauses do)",
 			"L5 (a call that returns an error leaves the element list and every element's content as they were) generalises the statement's 'reports failure without changing anything' from removals to every rejecting call: a rejected call is neither an append nor a removal",
